@@ -53,11 +53,13 @@ CHECKS = {
 THOROUGH_ONLY_QUICK = set()
 
 def main():
+    global READY
+    READY = set((V / 'tools' / 'ready.txt').read_text().split())
     checks = []
     na = []
     for pid, c in CHECKS.items():
         script = V / 'checks' / f'{pid.lower()}.py'
-        if script.exists() and not (V / 'checks' / f'{pid.lower()}.disabled').exists():
+        if script.exists() and pid in READY:
             checks.append(dict(
                 property_id=pid,
                 quick_cmd=f'./check {pid} --tier quick',
